@@ -189,7 +189,7 @@ impl Monitor for C08 {
 }
 
 pub fn run(p: &Params) -> Report {
-    let total = p.n(200, 4000);
+    let total = p.n(600, 15000);
     let mine = p.share(total);
     let mut rng = Rng::new(p.shard_seed() ^ 0xC08);
     let mut mon = C08 { rep: Report::new("C08"), case_seed: 0, mirrors: vec![], max_steps: 5 };
